@@ -23,6 +23,10 @@ func init() { register("C15", propC15) }
 // Then the read-only clause: authenticate / exists / list / list-full / check perform no
 // mutation, with and without an injected fault.
 func propC15(r *Run) {
+	if r.Choose("odd-entries-clause", 10) == 0 {
+		propC15Odd(r)
+		return
+	}
 	inBubble(r, func(rr *randRecorder) {
 		sc := genScenario(r, rr, []string{"add", "update", "update", "set-admin", "remove", "init"})
 		w, op := sc.w, sc.op
